@@ -47,7 +47,14 @@ where
             responses.push((0, vec![]));
             continue;
         }
-        let resp = warp::test::request().method(&method).path(&path).reply(&filter).await;
+        // "GET|Header: value|Header: value": request headers ride behind the method
+        let mut parts = method.split('|');
+        let mut req = warp::test::request().method(parts.next().unwrap_or("GET")).path(&path);
+        for h in parts
+        {
+            if let Some((k, v)) = h.split_once(": ") { req = req.header(k, v); }
+        }
+        let resp = req.reply(&filter).await;
         responses.push((resp.status().as_u16(), resp.body().to_vec()));
     }
     SERVER_PLAN.with(|p| if let Some(pl) = p.borrow_mut().as_mut() { pl.responses = responses; });
